@@ -31,14 +31,37 @@ fn any_options() -> ProofOptions {
     ProofOptions::new(nq, 1usize << bl, g, ext, 4, 31, BatchingMethod::Linear, BatchingMethod::Linear)
 }
 
+// the proven-security branch of validate() is floating point (log2, powf, sqrt); the harness never takes
+// it, but the model checker cannot see that statically, so the libm wrappers are stubbed
+fn stub_f1(_v: f64) -> f64 {
+    1.0
+}
+fn stub_f2(_v: f64, _e: f64) -> f64 {
+    1.0
+}
+
 //# harness: fn=AcceptableOptions::validate (MinConjecturedSecurity, OptionSet), Proof::conjectured_security; label=complete in queries, blowup, grinding, extension, requested minimum; tier=quick; timeout=400
 #[cfg_attr(kani, kani::proof)]
 #[cfg_attr(kani, kani::unwind(10))]
 #[cfg_attr(kani, kani::stub(alloc::fmt::format, vs::fake_format))]
+#[cfg_attr(kani, kani::stub(winter_air::proof::security::log2, stub_f1))]
+#[cfg_attr(kani, kani::stub(winter_air::proof::security::sqrt, stub_f1))]
+#[cfg_attr(kani, kani::stub(winter_air::proof::security::ceil, stub_f1))]
+#[cfg_attr(kani, kani::stub(winter_air::proof::security::powf, stub_f2))]
 pub fn k_c25_validate_iff() {
     let o = any_options();
-    let mut proof = Proof::new_dummy();
-    proof.context = Context::new::<F64>(TraceInfo::new(1, 8), o.clone(), 1);
+    // a structurally minimal proof: validate() only looks at the context
+    let empty_queries = [1u8, 1u8]; // two empty byte vectors (vint64 length 0 each)
+    let proof = Proof {
+        context: Context::new::<F64>(TraceInfo::new(1, 8), o.clone(), 1),
+        num_unique_queries: 1,
+        commitments: air::proof::Commitments::default(),
+        trace_queries: Vec::new(),
+        constraint_queries: air::proof::Queries::read_from(&mut SliceReader::new(&empty_queries)).unwrap(),
+        ood_frame: air::proof::OodFrame::default(),
+        fri_proof: fri::FriProof::new_dummy(),
+        pow_nonce: 0,
+    };
     let min = vs::any_u32();
     let expected = proof.conjectured_security::<H>().bits() >= min;
     let got = AcceptableOptions::MinConjecturedSecurity(min).validate::<H>(&proof).is_ok();
